@@ -409,7 +409,8 @@ enum Outcome {
 
 impl Worker {
 	fn spawn() -> Worker {
-		let exe = std::env::current_exe().expect("current exe");
+		// /proc/self/exe keeps working when the file is replaced by a rebuild while the check runs
+		let exe = if std::path::Path::new("/proc/self/exe").exists() { std::path::PathBuf::from("/proc/self/exe") } else { std::env::current_exe().expect("current exe") };
 		let mut child = Command::new(exe).arg("--worker").stdin(Stdio::piped()).stdout(Stdio::piped()).stderr(Stdio::null()).spawn().unwrap_or_else(|e| vt::engine::die(&format!("cannot spawn worker: {e}")));
 		let stdin = child.stdin.take().unwrap();
 		let stdout = BufReader::new(child.stdout.take().unwrap());
